@@ -708,6 +708,8 @@ def run_case(params: dict) -> dict:
                             i, user=name, referenced_by_library=referenced, expected=exp, observed=obs,
                             privileges_last_announced_by=last_privilege_kind[name]))
                         model['users'].setdefault(name, muser).update(obs)
+            # values adopted above are consequences of divergences already reported: not a new set divergence
+            set_diff_known = rm.privileged_set(model) ^ obs_set
 
             # -- events -------------------------------------------------------------
             new_events = events[ev0:]
